@@ -422,14 +422,33 @@ class Emitter:
         if cname in self.funcs:
             return cname
         body = body_of(decl)
-        stmts = body.get("inner", [])
 
         def declares(st, name):
             return st.get("kind") == "DeclStmt" and any(v.get("kind") == "VarDecl" and v.get("name") == name for v in st.get("inner", []))
+
+        def find_compound(n):
+            """innermost compound statement whose direct children declare first_var"""
+            hits = []
+            if n.get("kind") == "CompoundStmt" and any(declares(st, first_var) for st in n.get("inner", [])):
+                hits.append(n)
+            for c in n.get("inner", []):
+                if isinstance(c, dict) and c.get("kind") != "LambdaExpr":
+                    hits += find_compound(c)
+            return hits
+        comps = find_compound(body)
+        if len(comps) != 1:
+            raise ExtractionError("slice anchor %s found in %d compound statements of %s" % (first_var, len(comps), cname))
+        stmts = comps[0].get("inner", [])
         a = [i for i, st in enumerate(stmts) if declares(st, first_var)]
         excl = last_var.startswith("<")       # "<name": up to, but excluding, the declaration of name
         to_end = last_var == "$return"        # through the end of the function: the slice returns the function's value
-        b = [i for i, st in enumerate(stmts) if declares(st, last_var.lstrip("<"))] if not to_end else [len(stmts) - 1]
+        if last_var.startswith("#"):          # "#N": N statements starting at the first anchor
+            a0 = [i for i, st in enumerate(stmts) if declares(st, first_var)]
+            b = [a0[0] + int(last_var[1:]) - 1] if len(a0) == 1 else []
+            if b and b[0] >= len(stmts):
+                b = []
+        else:
+            b = [i for i, st in enumerate(stmts) if declares(st, last_var.lstrip("<"))] if not to_end else [len(stmts) - 1]
         if len(a) != 1 or len(b) != 1 or a[0] > b[0]:
             raise ExtractionError("slice anchors %s..%s not found exactly once in %s" % (first_var, last_var, cname))
         sl = stmts[a[0]:b[0] + (0 if excl else 1)]
@@ -1320,11 +1339,18 @@ class Emitter:
             return self.expr(inner)     # pointer handed to an owning handle shim
         try:
             it = self.ctype(inner["type"])
-            if it.base in ("xc_handle", "xc_opaque"):
-                return self.expr(inner)   # opaque shim types have no base sub-object
         except ExtractionError:
-            pass
-        t = self.ctype(n["type"])
+            it = None
+        if it is not None and it.base in ("xc_handle", "xc_opaque"):
+            return self.expr(inner)   # opaque shim types have no base sub-object
+        try:
+            t = self.ctype(n["type"])
+        except ExtractionError:
+            if it is not None and it.ptr > 0:
+                return self.expr(inner)   # a smart pointer mapped to a plain pointer: its std:: base class is the same pointer
+            raise
+        if it is not None and it.base in SCALARS.values() and t.base in SCALARS.values():
+            return self.expr(inner)       # std::atomic<T> -> std::__atomic_base<T>: both are the plain T
         brec = self.find_record(lconst(strip_ns((n["type"].get("desugaredQualType") or n["type"]["qualType"]).rstrip("*& "))))
         if brec is not None and not any(c.get("kind") == "FieldDecl" for c in brec.get("inner", [])):
             # a base class without data members: reinterpret the pointer (the base sub-object is empty)
@@ -1332,7 +1358,7 @@ class Emitter:
             if t.ptr and not t.is_ref:
                 return "((%s)(%s))" % (t.text(), self.expr(inner))
             return "(*(%s *)&(%s))" % (t.base, self.expr(inner))
-        raise ExtractionError("derived-to-base conversion not supported")
+        raise ExtractionError("derived-to-base conversion not supported: %s -> %s" % (inner.get("type"), n.get("type")))
 
     def explicit_cast(self, n):
         ck = n.get("castKind")
